@@ -6,7 +6,6 @@ package main
 
 import (
 	"fmt"
-	"os"
 	"sort"
 
 	c "verifharness/common"
@@ -36,8 +35,8 @@ func coqPar(r PRemedy) string {
 		prz = c.Some(fmt.Sprintf("{| hname := %s; groups := %s |}", c.Bytes(r.Prz.Header),
 			c.MapList(names, func(n string) string { return c.Tuple(c.Bytes(n), c.Z(int64(r.Prz.Groups[n]))) })))
 	}
-	return fmt.Sprintf("{| p_ttl_h := %s; p_qsize := %s; p_status := %s; p_prz := %s |}",
-		c.Z(r.TTLHalf), c.Z(r.QSize), c.Z(int64(r.Status)), prz)
+	return fmt.Sprintf("{| p_ttl_e := %s; p_qsize := %s; p_status := %s; p_prz := %s |}",
+		c.Z(r.TTL8), c.Z(r.QSize), c.Z(int64(r.Status)), prz)
 }
 
 // remedy index of a queue key (KTick): any remedy of the case with that key;
@@ -76,7 +75,7 @@ func coqPCase(k *PCase) string {
 	return c.Tuple(
 		c.MapList(k.Remedies, func(r PRemedy) string {
 			if r.NoConfig { // never referred to by an action of the model
-				return c.Tuple(c.Tuple("0", "0", "0"), "{| p_ttl_h := 0; p_qsize := 0; p_status := 0; p_prz := None |}")
+				return c.Tuple(c.Tuple("0", "0", "0"), "{| p_ttl_e := 0; p_qsize := 0; p_status := 0; p_prz := None |}")
 			}
 			return c.Tuple(coqKey([3]int64{k.nameID(r.Name), r.Quota, r.WSec}), coqPar(r))
 		}),
@@ -285,10 +284,14 @@ func (g *pgen) hdrsAvoiding(rem int, taken map[int]bool) (map[string]string, boo
 	return nil, false
 }
 
+// ttl_seconds in eighths of a second: whole seconds and fractions (1.125 s ... 3.875 s);
+// multiples of 1/8 are exact in float32, float64 and as a Duration (see Plugin.v, ttl_ns)
+var ttl8s = []int64{8, 8, 9, 12, 13, 15, 16, 16, 17, 20, 23, 24, 28, 31, 32}
+
 func randomRemedies(r *c.Rng) []PRemedy {
 	mk := func(name string) PRemedy {
 		rem := PRemedy{Name: name, Quota: int64(r.Range(1, 3)), WSec: int64(r.Range(1, 3)),
-			TTLHalf: 2 * int64(r.Range(1, 4)), QSize: int64(r.Range(1, 3)), Status: c.Pick(r, []int{429, 503, 400})}
+			TTL8: c.Pick(r, ttl8s), QSize: int64(r.Range(1, 3)), Status: c.Pick(r, []int{429, 503, 400})}
 		switch r.Intn(5) {
 		case 0, 1:
 			rem.Prz = przFull
@@ -322,19 +325,12 @@ func randomRemedies(r *c.Rng) []PRemedy {
 	if r.Chance(1, 5) { // same key, other per-call parameters
 		x := rems[r.Intn(len(rems))]
 		x.QSize = x.QSize%3 + 1
-		x.TTLHalf = 2 * (x.TTLHalf/2%4 + 1)
+		x.TTL8 = c.Pick(r, ttl8s)
 		x.Status = c.Pick(r, []int{429, 503, 418})
 		rems = append(rems, x)
 	}
 	if r.Chance(1, 6) {
 		rems = append(rems, PRemedy{Name: "no-config", NoConfig: true})
-	}
-	if os.Getenv("C10_FRACTIONAL_TTL") != "" { // see notes/C10.md: TTLSeconds is truncated to whole seconds
-		for i := range rems {
-			if !rems[i].NoConfig && r.Bool() {
-				rems[i].TTLHalf = 2*int64(r.Range(1, 3)) + 1
-			}
-		}
 	}
 	return rems
 }
@@ -564,9 +560,9 @@ func scriptedPlugin(o *c.Out, maxN int) {
 						if enough() {
 							return
 						}
-						rems := []PRemedy{{Name: "queue-a", Quota: quota, WSec: 2, TTLHalf: 6, QSize: 2, Status: 429, Prz: przFull}}
+						rems := []PRemedy{{Name: "queue-a", Quota: quota, WSec: 2, TTL8: 21, QSize: 2, Status: 429, Prz: przFull}}
 						if other == 1 {
-							rems = append(rems, PRemedy{Name: "queue-b", Quota: quota, WSec: 2, TTLHalf: 2, QSize: 1, Status: 503})
+							rems = append(rems, PRemedy{Name: "queue-b", Quota: quota, WSec: 2, TTL8: 9, QSize: 1, Status: 503})
 						}
 						k := &PCase{T0: t0 + sec/2, Remedies: rems, Forced: true}
 						x := newPRunner(k)
